@@ -89,7 +89,8 @@ DecodeLink(g, i) ==
        diag   |-> Diags[(Gene(g, i, 13) % 3) + 1],
        ipos   |-> IF Gene(g, i, 14) % 2 = 0 THEN RVZero ELSE <<RNorm(1, 10), RZero, RNorm(-1, 10)>>,
        iquat  |-> QuatAt(Gene(g, i, 15)),
-       geom   |-> Gene(g, i, 16) % 4]          \* 0 none, 1 sphere, 2 capsule, 3 box (non-colliding unless a check enables it)
+       \* link 1 always carries a geom (every generator model has at least one geom)
+       geom   |-> IF i = 1 THEN (Gene(g, i, 16) % 3) + 1 ELSE Gene(g, i, 16) % 4]          \* 0 none, 1 sphere, 2 capsule, 3 box (non-colliding unless a check enables it)
 
 DecodeModel(g, n) == [links |-> [i \in 1..n |-> DecodeLink(g, i)]]
 
@@ -106,6 +107,11 @@ NQ(m) == QStart(m, NLinks(m)) + QWidth(m.links[NLinks(m)])
 NV(m) == DStart(m, NLinks(m)) + DWidth(m.links[NLinks(m)])
 LinkType(l) == IF l.root = "free" THEN "f" ELSE ToString(Len(l.stack))
 
+\* the model's 1-dof joints in coordinate order, as <<link, index in stack>>
+RECURSIVE SitesSeq(_, _)
+SitesSeq(m, i) == IF i = 0 THEN <<>>
+                  ELSE SitesSeq(m, i - 1) \o (IF m.links[i].root = "joints"
+                                                THEN [j \in 1..Len(m.links[i].stack) |-> <<i, j>>] ELSE <<>>)
 RECURSIVE IsAncestorOrSelf(_, _, _)
 IsAncestorOrSelf(m, a, i) == i # 0 /\ (a = i \/ IsAncestorOrSelf(m, a, m.links[i].parent))
 
